@@ -782,7 +782,13 @@ class Exec(ExprMixin, StmtMixin, LoopMixin, ModelMixin):
         if getattr(obj, "abstract", None) is not None:
             return obj.abstract
         names = sorted(k for k in obj.fields if not k.startswith("__"))
-        vals = [self.as_val(obj.fields[k]) for k in names]
+        vals = []
+        for k in names:
+            fv = obj.fields[k]
+            if isinstance(fv, Obj) and not fv.is_exc and fv.cls is not None and self.repo.is_subclass(fv.cls, "Evaluatable"):
+                vals.append(T.val_of_ev(self.abstract_temp(fv).term))
+            else:
+                vals.append(self.as_val(fv))
         f = z3.Function("mk_" + obj.cls.name + "#" + ",".join(names), *([T.Val] * len(vals)), T.Ev)
         t = f(*vals)
         self.tags.append(("abstract-temp", obj.cls.name))
